@@ -452,13 +452,42 @@ impl Run {
 /// Greedy shrinker for enumerated/fuzzed character sequences: delete characters, then replace
 /// by 'a', as long as `fails` stays true.
 pub fn shrink_chars(mut v: Vec<char>, fails: &dyn Fn(&[char]) -> bool) -> Vec<char> {
+    // best effort under a work budget (characters re-evaluated) and a 60 s deadline: the budget only bounds how small the reported
+    // counterexample gets, never whether a violation is reported
+    let budget = std::cell::Cell::new(600_000_000i64);
+    let t0 = std::time::Instant::now();
+    let attempt = |w: &[char]| -> bool {
+        if budget.get() <= 0 || t0.elapsed().as_secs() >= 60 {
+            return false;
+        }
+        budget.set(budget.get() - w.len() as i64 - 64);
+        fails(w)
+    };
+    // chunks first (halves, quarters, ...), so that megabyte-sized inputs shrink in a few hundred evaluations
+    let exhausted = || budget.get() <= 0 || t0.elapsed().as_secs() >= 60;
+    let mut chunk = v.len() / 2;
+    while chunk >= 2 && !exhausted() {
+        let mut i = 0;
+        while i < v.len() && !exhausted() {
+            let end = (i + chunk).min(v.len());
+            let mut w: Vec<char> = Vec::with_capacity(v.len() - (end - i));
+            w.extend_from_slice(&v[..i]);
+            w.extend_from_slice(&v[end..]);
+            if attempt(&w) {
+                v = w;
+            } else {
+                i += chunk;
+            }
+        }
+        chunk /= 2;
+    }
     loop {
         let mut changed = false;
         let mut i = 0;
-        while i < v.len() {
+        while i < v.len() && !exhausted() {
             let mut w = v.clone();
             w.remove(i);
-            if fails(&w) {
+            if attempt(&w) {
                 v = w;
                 changed = true;
             } else {
@@ -466,16 +495,19 @@ pub fn shrink_chars(mut v: Vec<char>, fails: &dyn Fn(&[char]) -> bool) -> Vec<ch
             }
         }
         for i in 0..v.len() {
+            if exhausted() {
+                break;
+            }
             if v[i] != 'a' {
                 let mut w = v.clone();
                 w[i] = 'a';
-                if fails(&w) {
+                if attempt(&w) {
                     v = w;
                     changed = true;
                 }
             }
         }
-        if !changed {
+        if !changed || exhausted() {
             return v;
         }
     }
